@@ -168,7 +168,19 @@ def _run_one(case: dict) -> dict:
         r.setdefault("fails", [])
         r["wall"] = time.time() - t0
         return jsonable(r)
-    except Exception:  # noqa: BLE001 — an exception in check code (not library) is an internal error
+    except (TypeError, ValueError, AttributeError, IndexError, KeyError, ZeroDivisionError, ArithmeticError) as e:
+        # Library calls are wrapped by `call`, so this is the CHECK failing to digest what the library returned (wrong type,
+        # wrong shape, missing field ...).  On the unchanged tree this never happens (it would show in every run); on a changed
+        # tree it means the returned value is not of the documented form, which breaks the property: report it as a failed clause.
+        tb = traceback.format_exc()
+        return jsonable({
+            "key": case["key"],
+            "fails": [fail("result_not_of_documented_form", "the check could not evaluate the returned value: " + tb.strip().splitlines()[-1] + " | " + " / ".join(l.strip() for l in tb.strip().splitlines()[-5:-1])[:400])],
+            "wall": time.time() - t0,
+            "digest": "crash:" + type(e).__name__,
+            "obs": "crash:" + type(e).__name__,
+        })
+    except Exception:  # noqa: BLE001 — any other exception in check code is an internal error
         return {
             "key": case["key"],
             "internal_error": traceback.format_exc(),
